@@ -684,6 +684,12 @@ O(id='SEQUENCE_decode_ber.chunk2.v0.mod', props=['C05', 'C03'], kind='bounded', 
   defines=['VF_V=0', 'VF_N=11', 'VF_MOD=1'], unwind=9, cbmc=['--unwindset', 'ber_skip_length:2,ber_fetch_length.0:14,h_SEQUENCE_decode_ber_chunked.0:14,h_SEQUENCE_decode_ber_chunked.1:14', '--no-malloc-may-fail'],
   bound='as SEQUENCE_decode_ber.chunk2.v0', min_props=80, timeout=1800, **SQB)
 
+LF = dict(harness='harness/h_leaf.c', include=['contracts/leaf.h'], backends=['cvc5', 'sat'], kind='width', unwind=4, min_props=8, timeout=300)
+O(id='asn_get_undo', props=['C04', 'C05', 'C19'], entry='h_asn_get_undo', enforce=['asn_get_undo'], functions=['asn_get_undo'], units=[SK + 'asn_bit_data.c'], link=[SK + 'asn_bit_data.c'], bound='loop-free; every stream position and bit count', **LF)
+O(id='BOOLEAN_compare', props=['C01', 'C19'], entry='h_BOOLEAN_compare', enforce=['BOOLEAN_compare'], functions=['BOOLEAN_compare'], units=[SK + 'BOOLEAN.c'], link=[SK + 'BOOLEAN.c'], bound='loop-free; every pair of values / NULL', **LF)
+O(id='NULL_compare', props=['C01', 'C19'], entry='h_NULL_compare', enforce=['NULL_compare'], functions=['NULL_compare'], units=[SK + 'NULL.c'], link=[SK + 'NULL.c'], bound='loop-free', **LF)
+O(id='NativeInteger_compare', props=['C01', 'C13', 'C19'], entry='h_NativeInteger_compare', enforce=['NativeInteger_compare'], functions=['NativeInteger_compare'], units=[SK + 'NativeInteger.c'], link=[SK + 'NativeInteger.c'], bound='loop-free; every pair of long / unsigned long values / NULL', **LF)
+
 for _o in OBLIGATIONS:
     if _o.get('enforce') and _o.get('kind') in ('enforce', 'width') and _o.get('tier') == 'quick' and 'C19' not in _o['props']:
         _o['props'] = _o['props'] + ['C19']
